@@ -567,14 +567,14 @@ var undecidedOut []string
 
 // boundedStandins: what the oracle run stands in for (parts of the property no discharged contract covers).
 var boundedStandins = map[string]string{
-	"C03": "wire bytes (type, length, value, padding) of attributes re-added by Encode/WriteAttributes, and the decode(encode(m)) == m / encode(decode(b)) == b compositions, on generated messages (0..6 attributes, values 0..3200 bytes, fresh / reused / poisoned buffers)",
+	"C03": "cross-check (the wire bytes of re-encoded attributes and the decode/encode compositions are proved since session 6: Wire invariant, lemma functions): byte-for-byte equality of built messages with an independent reference encoder, decode-then-encode against canonical bytes, Equal, on generated messages (0..6 attributes, values 0..3200 bytes, fresh / reused / poisoned buffers)",
 	"C10": "whole histories on the real Client with the real Agent (in-memory connection, manual clock and collector): all histories up to depth 4 over {Start id1/id2, Do, response, duplicate, garbage, tick past the deadline, fail next write, fail next agent Start, Close} and random histories of length 4..17; goroutine schedules are NOT perturbed",
 	"C11": "histories with message sizes 20..4100 bytes, attempt limits 0..8, ticks just before / at / just after each deadline, SetRTO in flight, caller-side buffer reuse; every write compared byte for byte with the snapshot and judged against the (k+1)*rto schedule",
 	"C12": "1..40 concurrent transactions with random ids, responses up to the 1024-byte read buffer in random order with duplicates, unknown ids and garbage, recycled transaction objects; handler sees exactly the datagram",
 	"C15": "option combinations (default / WithNoConnClose, fallback handler) x histories ending in one or several Close calls, pending reader Read under WithNoConnClose, connection close errors; concurrent Close/Start schedules are NOT explored",
 	"C16": "whole-process behaviour of ParseURI on concrete strings, including the trusted parsers: every string over an 18-symbol alphabet of URI-significant characters (incl. NUL, space, a non-ASCII rune) up to length 3 after the prefixes stun: and turns: (exhaustive, 12350), a scheme x host x port x query grammar product incl. fragments and broken IPv6 brackets (7128), 200 random byte strings and three very long strings, run in supervised child processes (a fatal stack overflow kills only the child and is bisected to its input)",
 	"C17": "character-level facts that abstract strings cannot express: default ports 3478/5349, IPv6 bracket handling, rejection rules and ParseURI(u.String()) == u on grammar-generated URIs (4 schemes x reg-name/IPv4/IPv6 x absent/boundary/out-of-range/signed ports x query variants); DialURI against an injected transport.Net for all 5x3 scheme/transport pairs and for sequences reusing one DialConfig (server name observed in the ClientHello)",
-	"C06": "the add -> decode -> get composition for every typed attribute on generated values (all ports, IPv4/IPv6/mapped addresses, text up to each limit, codes 300..699, lists of 0..64 types) and reference-encoded messages",
+	"C06": "stand-in for IPv6 bytes 4-15 of the XOR-MAPPED-ADDRESS round trip (the only part of add -> decode -> get not proved by a lemma function), cross-check for the rest: the composition for every typed attribute on generated values (all ports, IPv4/IPv6/mapped addresses, text up to each limit, codes 300..699, lists of 0..64 types) and reference-encoded messages",
 }
 
 func writeEvidence(property, tier string, seed int, all []*Obligation, funcs []funcReport, trusted, transp map[string]bool,
